@@ -48,6 +48,8 @@ type hdata struct {
 
 	results     *consensusAPI.BlockResults
 	resultsHash []byte // trusted: LastResultsHash of the next verified header
+	// resultsAll is the honest provider's results answer also for the last height (batch "core").
+	resultsAll *consensusAPI.BlockResults
 
 	nextVals *consensusAPI.Validators // honest validators for height+1
 
@@ -383,6 +385,9 @@ func buildSynthetic(k *Knobs, st *core.Stats) *chain {
 	}
 	for i := 0; i+1 < n; i++ {
 		c.hs[i].resultsHash = append([]byte(nil), headers[i+1].LastResultsHash...)
+	}
+	for _, hd := range c.hs {
+		hd.resultsAll = hd.results
 	}
 	// The last height has no verified successor: results cannot be bound (documented, #6210).
 	c.hs[n-1].results = nil
